@@ -11,7 +11,8 @@ MAP = {
  'feature.go': ['C12','C19','C11'], 'region.go': ['C09','C08','C15'], 'locator.go': ['C08','C15'], 'modifier.go': ['C08'],
  'nucleotide.go': ['C18','C05'], 'props.go': ['C11','C01'], 'seqio/origin.go': ['C16','C01'], 'seqio/fasta.go': ['C17','C07'],
  'seqio/genbank.go': ['C01','C03','C07'], 'seqio/genbank_subparsers.go': ['C07','C16','C01'], 'seqio/insdc.go': ['C01','C07'],
- 'seqio/scanner.go': ['C07','C17'], 'cmd/cache/file.go': ['C13','C14'], 'cmd/cache/header.go': ['C13'],
+ 'seqio/scanner.go': ['C07','C17'], 'utils.go': ['C03','C04','C08'], 'cmd/gts/insert.go': ['C15','C14'], 'cmd/gts/delete.go': ['C15','C14'], 'cmd/gts/infix.go': ['C15'], 'cmd/gts/extract.go': ['C15','C14'],
+ 'cmd/gts/select.go': ['C19','C14'], 'cmd/gts/repair.go': ['C12','C14'], 'cmd/gts/rotate.go': ['C15','C14'], 'cmd/gts/split.go': ['C15','C12'], 'cmd/gts/io.go': ['C14','C15'], 'cmd/gts/search.go': ['C15','C14'], 'cmd/gts/join.go': ['C12','C14'], 'cmd/cache/file.go': ['C13','C14'], 'cmd/cache/header.go': ['C13'],
 }
 SWAPS = [(r' < ', ' <= '), (r' <= ', ' < '), (r' > ', ' >= '), (r' >= ', ' > '), (r' == ', ' != '), (r' != ', ' == '), (r' && ', ' || '), (r' \|\| ', ' && '),
          (r' \+ 1\b', ' - 1'), (r' - 1\b', ' + 1'), (r' \+ ', ' - '), (r' - ', ' + '), (r'\btrue\b', 'false'), (r'\bfalse\b', 'true'), (r'\+\+', '--'), (r'\[1\]', '[0]'), (r'\[0\]', '[1]')]
